@@ -6,9 +6,9 @@
         open spec fn spec_enc(v: &u8) -> Seq<u8> { le_seq1(*v as nat) }
         open spec fn spec_dec(b: Seq<u8>) -> Option<(u8, int)> { if b.len() < 1 { None } else { Some((le_val1(b.subrange(0, 1)) as u8, 1)) } }
         open spec fn progresses() -> bool { true }
-        //@ fn exp:zvt_builder | impl Encoding<u8> for Default | encode | mod=encoding
+        //@ fn exp:zvt_builder | impl Encoding<u8> for Default | encode | mod=encoding props=C17,C03
         //@ end
-        //@ fn exp:zvt_builder | impl Encoding<u8> for Default | decode | mod=encoding props=C02
+        //@ fn exp:zvt_builder | impl Encoding<u8> for Default | decode | mod=encoding props=C02,C17
         //@ end
         open spec fn self_delimiting() -> bool { true }
         proof fn law_dec_bounds(b: Seq<u8>) {}
@@ -30,9 +30,9 @@
         open spec fn spec_enc(v: &u16) -> Seq<u8> { le_seq2(*v as nat) }
         open spec fn spec_dec(b: Seq<u8>) -> Option<(u16, int)> { if b.len() < 2 { None } else { Some((le_val2(b.subrange(0, 2)) as u16, 2)) } }
         open spec fn progresses() -> bool { true }
-        //@ fn exp:zvt_builder | impl Encoding<u16> for Default | encode | mod=encoding
+        //@ fn exp:zvt_builder | impl Encoding<u16> for Default | encode | mod=encoding props=C17,C03
         //@ end
-        //@ fn exp:zvt_builder | impl Encoding<u16> for Default | decode | mod=encoding props=C02
+        //@ fn exp:zvt_builder | impl Encoding<u16> for Default | decode | mod=encoding props=C02,C17
         //@ end
         open spec fn self_delimiting() -> bool { true }
         proof fn law_dec_bounds(b: Seq<u8>) {}
@@ -54,9 +54,9 @@
         open spec fn spec_enc(v: &u32) -> Seq<u8> { le_seq4(*v as nat) }
         open spec fn spec_dec(b: Seq<u8>) -> Option<(u32, int)> { if b.len() < 4 { None } else { Some((le_val4(b.subrange(0, 4)) as u32, 4)) } }
         open spec fn progresses() -> bool { true }
-        //@ fn exp:zvt_builder | impl Encoding<u32> for Default | encode | mod=encoding
+        //@ fn exp:zvt_builder | impl Encoding<u32> for Default | encode | mod=encoding props=C17,C03
         //@ end
-        //@ fn exp:zvt_builder | impl Encoding<u32> for Default | decode | mod=encoding props=C02
+        //@ fn exp:zvt_builder | impl Encoding<u32> for Default | decode | mod=encoding props=C02,C17
         //@ end
         open spec fn self_delimiting() -> bool { true }
         proof fn law_dec_bounds(b: Seq<u8>) {}
@@ -78,9 +78,9 @@
         open spec fn spec_enc(v: &u64) -> Seq<u8> { le_seq8(*v as nat) }
         open spec fn spec_dec(b: Seq<u8>) -> Option<(u64, int)> { if b.len() < 8 { None } else { Some((le_val8(b.subrange(0, 8)) as u64, 8)) } }
         open spec fn progresses() -> bool { true }
-        //@ fn exp:zvt_builder | impl Encoding<u64> for Default | encode | mod=encoding
+        //@ fn exp:zvt_builder | impl Encoding<u64> for Default | encode | mod=encoding props=C17,C03
         //@ end
-        //@ fn exp:zvt_builder | impl Encoding<u64> for Default | decode | mod=encoding props=C02
+        //@ fn exp:zvt_builder | impl Encoding<u64> for Default | decode | mod=encoding props=C02,C17
         //@ end
         open spec fn self_delimiting() -> bool { true }
         proof fn law_dec_bounds(b: Seq<u8>) {}
@@ -102,9 +102,9 @@
         open spec fn spec_enc(v: &usize) -> Seq<u8> { le_seq8(*v as nat) }
         open spec fn spec_dec(b: Seq<u8>) -> Option<(usize, int)> { if b.len() < 8 { None } else { Some((le_val8(b.subrange(0, 8)) as usize, 8)) } }
         open spec fn progresses() -> bool { true }
-        //@ fn exp:zvt_builder | impl Encoding<usize> for Default | encode | mod=encoding
+        //@ fn exp:zvt_builder | impl Encoding<usize> for Default | encode | mod=encoding props=C17,C03
         //@ end
-        //@ fn exp:zvt_builder | impl Encoding<usize> for Default | decode | mod=encoding props=C02
+        //@ fn exp:zvt_builder | impl Encoding<usize> for Default | decode | mod=encoding props=C02,C17
         //@ end
         open spec fn self_delimiting() -> bool { true }
         proof fn law_dec_bounds(b: Seq<u8>) {}
@@ -127,9 +127,9 @@
         open spec fn spec_enc(v: &u8) -> Seq<u8> { be_seq1(*v as nat) }
         open spec fn spec_dec(b: Seq<u8>) -> Option<(u8, int)> { if b.len() < 1 { None } else { Some((be_val1(b.subrange(0, 1)) as u8, 1)) } }
         open spec fn progresses() -> bool { true }
-        //@ fn exp:zvt_builder | impl Encoding<u8> for BigEndian | encode | mod=encoding
+        //@ fn exp:zvt_builder | impl Encoding<u8> for BigEndian | encode | mod=encoding props=C17,C03
         //@ end
-        //@ fn exp:zvt_builder | impl Encoding<u8> for BigEndian | decode | mod=encoding props=C02
+        //@ fn exp:zvt_builder | impl Encoding<u8> for BigEndian | decode | mod=encoding props=C02,C17
         //@ end
         open spec fn self_delimiting() -> bool { true }
         proof fn law_dec_bounds(b: Seq<u8>) {}
@@ -151,9 +151,9 @@
         open spec fn spec_enc(v: &u16) -> Seq<u8> { be_seq2(*v as nat) }
         open spec fn spec_dec(b: Seq<u8>) -> Option<(u16, int)> { if b.len() < 2 { None } else { Some((be_val2(b.subrange(0, 2)) as u16, 2)) } }
         open spec fn progresses() -> bool { true }
-        //@ fn exp:zvt_builder | impl Encoding<u16> for BigEndian | encode | mod=encoding
+        //@ fn exp:zvt_builder | impl Encoding<u16> for BigEndian | encode | mod=encoding props=C17,C03
         //@ end
-        //@ fn exp:zvt_builder | impl Encoding<u16> for BigEndian | decode | mod=encoding props=C02
+        //@ fn exp:zvt_builder | impl Encoding<u16> for BigEndian | decode | mod=encoding props=C02,C17
         //@ end
         open spec fn self_delimiting() -> bool { true }
         proof fn law_dec_bounds(b: Seq<u8>) {}
@@ -175,9 +175,9 @@
         open spec fn spec_enc(v: &u32) -> Seq<u8> { be_seq4(*v as nat) }
         open spec fn spec_dec(b: Seq<u8>) -> Option<(u32, int)> { if b.len() < 4 { None } else { Some((be_val4(b.subrange(0, 4)) as u32, 4)) } }
         open spec fn progresses() -> bool { true }
-        //@ fn exp:zvt_builder | impl Encoding<u32> for BigEndian | encode | mod=encoding
+        //@ fn exp:zvt_builder | impl Encoding<u32> for BigEndian | encode | mod=encoding props=C17,C03
         //@ end
-        //@ fn exp:zvt_builder | impl Encoding<u32> for BigEndian | decode | mod=encoding props=C02
+        //@ fn exp:zvt_builder | impl Encoding<u32> for BigEndian | decode | mod=encoding props=C02,C17
         //@ end
         open spec fn self_delimiting() -> bool { true }
         proof fn law_dec_bounds(b: Seq<u8>) {}
@@ -199,9 +199,9 @@
         open spec fn spec_enc(v: &u64) -> Seq<u8> { be_seq8(*v as nat) }
         open spec fn spec_dec(b: Seq<u8>) -> Option<(u64, int)> { if b.len() < 8 { None } else { Some((be_val8(b.subrange(0, 8)) as u64, 8)) } }
         open spec fn progresses() -> bool { true }
-        //@ fn exp:zvt_builder | impl Encoding<u64> for BigEndian | encode | mod=encoding
+        //@ fn exp:zvt_builder | impl Encoding<u64> for BigEndian | encode | mod=encoding props=C17,C03
         //@ end
-        //@ fn exp:zvt_builder | impl Encoding<u64> for BigEndian | decode | mod=encoding props=C02
+        //@ fn exp:zvt_builder | impl Encoding<u64> for BigEndian | decode | mod=encoding props=C02,C17
         //@ end
         open spec fn self_delimiting() -> bool { true }
         proof fn law_dec_bounds(b: Seq<u8>) {}
@@ -223,9 +223,9 @@
         open spec fn spec_enc(v: &usize) -> Seq<u8> { be_seq8(*v as nat) }
         open spec fn spec_dec(b: Seq<u8>) -> Option<(usize, int)> { if b.len() < 8 { None } else { Some((be_val8(b.subrange(0, 8)) as usize, 8)) } }
         open spec fn progresses() -> bool { true }
-        //@ fn exp:zvt_builder | impl Encoding<usize> for BigEndian | encode | mod=encoding
+        //@ fn exp:zvt_builder | impl Encoding<usize> for BigEndian | encode | mod=encoding props=C17,C03
         //@ end
-        //@ fn exp:zvt_builder | impl Encoding<usize> for BigEndian | decode | mod=encoding props=C02
+        //@ fn exp:zvt_builder | impl Encoding<usize> for BigEndian | decode | mod=encoding props=C02,C17
         //@ end
         open spec fn self_delimiting() -> bool { true }
         proof fn law_dec_bounds(b: Seq<u8>) {}
